@@ -443,6 +443,7 @@ public:
         // the Ritz pairs that are actually returned
         if (i >= maxit)
             nconv = num_converged(tol);
+        SPECTRA_VERIF_EVENT("eigs.final", this, i, nconv);
         // Sorting results
         sort_ritzpair(sorting);
         SPECTRA_VERIF_EVENT("eigs.sorted", this, i, nconv);
